@@ -390,6 +390,29 @@ def run(rep: Report, prog: Program, tier: str) -> None:
         rep.fail(mk_finding(prog, PROP, "C06-RECV", rf, getattr(ex, "node", None), f"[{label}] raises {ex.name}", construct=f"forward-tsn raises {ex.name}"))
     except Unknown as ex:
         raise AnalysisError(f"C06-RECV cannot evaluate [{label}]: {ex}")
+    # the sender's T3 abandoned a lost message together with a later one that the receiver already holds complete; afterwards order still matters
+    for order in ((14, 15), (15, 14)):
+        label = f"FORWARD-TSN covers a message the receiver holds complete; later messages arrive in TSN order {list(order)}"
+        me = SimpleNamespace(__cls__=ci, _last_received_tsn=8, _sack_needed=False, _sack_duplicates=[], _sack_misordered=set(), _inbound_streams={}, _inbound_streams_max=65535,
+                             _advertised_rwnd=100000, delivered=[])
+        later = {14: chunk(14, 1, 2, FIRST | LAST, b"M4"), 15: chunk(15, 1, 3, FIRST | LAST, b"M5")}
+        try:
+            hook.run_method(rd, me, [chunk(10, 1, 1, FIRST | LAST, b"M3")], {})       # TSN 9 (sequence 0) is lost, M3 waits behind it
+            hook.run_method(rf, me, [SimpleNamespace(cumulative_tsn=10, streams=[(1, 1)], flags=0)], {})
+            for t in order:
+                hook.run_method(rd, me, [later[t]], {})
+        except Raised as ex:
+            rep.fail(mk_finding(prog, PROP, "C06-RECV", rf, getattr(ex, "node", None), f"[{label}] raises {ex.name}", construct=f"forward-tsn raises {ex.name}"))
+            continue
+        except Unknown as ex:
+            raise AnalysisError(f"C06-RECV cannot evaluate [{label}]: {ex}")
+        got = [bytes(d[2]) for d in me.delivered]
+        n_recv += 1
+        if got in ([b"M3", b"M4", b"M5"], [b"M4", b"M5"]):
+            rep.ok("C06-RECV", label, sample=f"delivered {got}")
+        else:
+            rep.fail(mk_finding(prog, PROP, "C06-RECV", rf, rf.node, f"[{label}] delivered {got}; on an ordered channel whatever is delivered has to come in sending order (M3?, M4, M5)",
+                                construct="receiver: order lost after a FORWARD-TSN over a held message"))
     # the abandoned message itself was partly received: its fragments must go, the next message on the same channel must come out
     for a_unordered, mask, n_frag in itertools.product((False, True), (1, 2, 3), (1, 2)):
         have = [t for i, t in enumerate((9, 10)) if mask >> i & 1]
@@ -423,6 +446,9 @@ def run(rep: Report, prog: Program, tier: str) -> None:
                                 "the remains of an abandoned message block or leak on its channel", construct="receiver: abandoned message partly received"))
     if n_cases < 20 or n_recv < 60:
         raise AnalysisError("evaluation families are smaller than expected")
+
+    from .sctploop import loop_rule
+    loop_rule(rep, prog, PROP, "C06-LOOP", tier)
 
     # ---------------- C06-POLICY (rules/C13life.py): per-channel reliability parameters at the hand-over to _send()
     from .C13life import run_policy
